@@ -17,13 +17,16 @@ pairs by definition; lanes via C08; Periodic in `Props/C07`):
 * `C03_periodic`       : Periodic boundary, `n ≥ 4` (the condensed two-solve system; its closing
                        denominator is positive): the solver succeeds iff the first and last data
                        values are equal (otherwise `ValueError`), and the slopes make the spline C² at
-                       every interior knot with `S'` and `S''` equal at the two ends. `C03_periodic3`:
-                       the 3-point closed form.
+                       every interior knot with `S'` and `S''` equal at the two ends; they are the
+                       only such slopes (`C03_periodic_unique`: the cyclic system is strictly
+                       diagonally dominant, maximum-modulus argument). `C03_periodic3`: the 3-point
+                       closed form.
 * `C03_defect_witness` : the pre-repair right NotAKnot row (diagonal entry `x[n-1]-x[n-2]`) is
                        *not* the NotAKnot condition: concrete rational counterexample.
 -/
 import NdInterp.Lemmas.SplineChar
 import NdInterp.Lemmas.Periodic
+import NdInterp.Lemmas.PeriodicUnique
 import Mathlib.Tactic.NormNum
 
 namespace NdInterp
@@ -118,6 +121,29 @@ end
 section periodic
 variable {F : Type} [Field F] [LinearOrder F] [IsStrictOrderedRing F] [Cmp F] [LawfulCmp F]
 
+/-- the Periodic branch of `solve_for_k`, `n ≥ 4`: `ValueError` unless the end values are equal -/
+theorem solveForK_periodic_eq (xs ys : List F) (hy : ys.length = xs.length) (hn : 4 ≤ xs.length) :
+    solveForK (V := F) xs ys .periodic =
+      if ys[0]'(by omega) = ys[xs.length - 1]'(by omega) then
+        periodicN xs ys (endsOf xs ys hy (by omega)) (xs[xs.length - 4])
+      else .error (.builder .valueError) := by
+  have hg : (3 ≤ ys.length ∧ xs.length = ys.length) := ⟨by omega, hy.symm⟩
+  unfold solveForK
+  simp only [bind, Except.bind, pure, Except.pure]
+  rw [if_neg (not_not.mpr hg)]
+  simp only [getEnds_eq' xs ys hy (by omega), InternalBoundary.specialize, all2_scalar]
+  have h3 : ¬ ys.length = 3 := by omega
+  have hrd : rd xs (ys.length - 4) = .ok (xs[xs.length - 4]) := by
+    have e : ys.length - 4 = xs.length - 4 := by rw [hy]
+    rw [e]; exact rd_eq xs _ (by omega)
+  by_cases hends : ys[0]'(by omega) = ys[xs.length - 1]'(by omega)
+  · have : Cmp.eq (endsOf xs ys hy (by omega)).y0 (endsOf xs ys hy (by omega)).yl1 = true :=
+      (cmp_eq _ _).mpr hends
+    simp only [this, Bool.not_true, Bool.false_eq_true, if_false, h3, hrd, if_pos hends]
+  · have : Cmp.eq (endsOf xs ys hy (by omega)).y0 (endsOf xs ys hy (by omega)).yl1 = false :=
+      (cmp_eq_false _ _).mpr hends
+    simp only [this, Bool.not_false, if_true, if_neg hends, throw, throwThe, MonadExceptOf.throw]
+
 /-- **C03_periodic** (`n ≥ 4`) -/
 theorem C03_periodic (xs ys : List F) (hs : StrictInc xs) (hy : ys.length = xs.length)
     (hn : 4 ≤ xs.length) :
@@ -134,26 +160,7 @@ theorem C03_periodic (xs ys : List F) (hs : StrictInc xs) (hy : ys.length = xs.l
           (pc xs ys ks hy hk 0 1 (by omega) (by omega)).d2 xs[0]) := by
   have hne : ∀ i j (hij : i < j) (hj : j < xs.length), xs[j] - xs[i]'(by omega) ≠ 0 :=
     fun i j hij hj => ne_of_gt (sub_pos.mpr (hs.2 i j hij hj))
-  have hg : (3 ≤ ys.length ∧ xs.length = ys.length) := ⟨by omega, hy.symm⟩
-  have hsolve : solveForK (V := F) xs ys .periodic =
-      if ys[0]'(by omega) = ys[xs.length - 1]'(by omega) then
-        periodicN xs ys (endsOf xs ys hy (by omega)) (xs[xs.length - 4])
-      else .error (.builder .valueError) := by
-    unfold solveForK
-    simp only [bind, Except.bind, pure, Except.pure]
-    rw [if_neg (not_not.mpr hg)]
-    simp only [getEnds_eq' xs ys hy (by omega), InternalBoundary.specialize, all2_scalar]
-    have h3 : ¬ ys.length = 3 := by omega
-    have hrd : rd xs (ys.length - 4) = .ok (xs[xs.length - 4]) := by
-      have e : ys.length - 4 = xs.length - 4 := by rw [hy]
-      rw [e]; exact rd_eq xs _ (by omega)
-    by_cases hends : ys[0]'(by omega) = ys[xs.length - 1]'(by omega)
-    · have : Cmp.eq (endsOf xs ys hy (by omega)).y0 (endsOf xs ys hy (by omega)).yl1 = true :=
-        (cmp_eq _ _).mpr hends
-      simp only [this, Bool.not_true, Bool.false_eq_true, if_false, h3, hrd, if_pos hends]
-    · have : Cmp.eq (endsOf xs ys hy (by omega)).y0 (endsOf xs ys hy (by omega)).yl1 = false :=
-        (cmp_eq_false _ _).mpr hends
-      simp only [this, Bool.not_false, if_true, if_neg hends, throw, throwThe, MonadExceptOf.throw]
+  have hsolve := solveForK_periodic_eq xs ys hy hn
   constructor
   · intro h; rw [hsolve, if_neg h]
   · intro hends
@@ -175,6 +182,40 @@ theorem C03_periodic (xs ys : List F) (hs : StrictInc xs) (hy : ys.length = xs.l
       rw [← hends] at hrow0
       field_simp at hrow0 ⊢
       linear_combination hrow0
+
+/-- **C03_periodic_unique** (`n ≥ 4`): any slopes whose piecewise cubic is C² at the interior knots
+    and has equal first and second derivatives at the two ends are the slopes the Periodic solve
+    returns — the periodic spline is unique (the cyclic system is strictly diagonally dominant). -/
+theorem C03_periodic_unique (xs ys ks' : List F) (hs : StrictInc xs) (hy : ys.length = xs.length)
+    (hn : 4 ≤ xs.length) (hends : ys[0]'(by omega) = ys[xs.length - 1]'(by omega))
+    (hk' : ks'.length = xs.length) (hC2 : C2Cond xs ys ks' hy hk')
+    (hd1 : (pc xs ys ks' hy hk' (xs.length - 2) (xs.length - 1) (by omega) (by omega)).d1 xs[xs.length - 1] =
+      (pc xs ys ks' hy hk' 0 1 (by omega) (by omega)).d1 xs[0])
+    (hd2 : (pc xs ys ks' hy hk' (xs.length - 2) (xs.length - 1) (by omega) (by omega)).d2 xs[xs.length - 1] =
+      (pc xs ys ks' hy hk' 0 1 (by omega) (by omega)).d2 xs[0]) :
+    solveForK (V := F) xs ys .periodic = .ok ks' := by
+  have hne : ∀ i j (hij : i < j) (hj : j < xs.length), xs[j] - xs[i]'(by omega) ≠ 0 :=
+    fun i j hij hj => ne_of_gt (sub_pos.mpr (hs.2 i j hij hj))
+  obtain ⟨ks, hk, hper, hint, hkl, hrow0⟩ := periodic_spec xs ys hy hn hs
+  rw [solveForK_periodic_eq xs ys hy hn, if_pos hends, hper]
+  congr 1
+  apply periodic_unique xs ys ks ks' hs hy hn hk hk' ⟨hint, hkl, hrow0⟩
+  unfold pc at hd1 hd2
+  rw [piece_d1_right _ _ _ _ _ _ (hne (xs.length - 2) (xs.length - 1) (by omega) (by omega)),
+    piece_d1_left] at hd1
+  rw [piece_d2_right _ _ _ _ _ _ (hne (xs.length - 2) (xs.length - 1) (by omega) (by omega)),
+    piece_d2_left _ _ _ _ _ _ (hne 0 1 (by omega) (by omega)), hd1, ← hends] at hd2
+  refine ⟨?_, hd1, ?_⟩
+  · intro j h
+    have := hC2 j h
+    unfold pc at this
+    exact (c2_iff_row _ _ _ _ _ _ _ _ _ (hne j (j + 1) (by omega) (by omega))
+      (hne (j + 1) (j + 2) (by omega) h)).mp this
+  · have n0 := hne 0 1 (by omega) (by omega)
+    have n1 := hne (xs.length - 2) (xs.length - 1) (by omega) (by omega)
+    rw [← hends]
+    field_simp at hd2 ⊢
+    linear_combination hd2
 
 /-- **C03_periodic3**: three points, Periodic boundary (closed form of the code). -/
 theorem C03_periodic3 (xs ys : List F) (hs : StrictInc xs) (hy : ys.length = xs.length)
